@@ -46,15 +46,34 @@ def zeroes(fk, what):
     return {"ok": False, "acc0": what == "acc", "mag0": what == "mag", "gyr0": what == "gyr", "accmag0": what in ("acc", "mag"), "all0": True}[fk]
 
 
-def history(u, pattern, seed, cfg, thin=False, bias=0.0):
+def history(u, pattern, seed, cfg, thin=False, bias=0.0, slot=None, rotating=False):
+    SLOT = slot or globals()["SLOT"]
     R = core.g_rot(u)
     n = SLOT * NSLOTS
     rng = core.rng(seed, "c13", u)
     gref = np.array([0.0, 0.0, -1.0]) if cfg["f"] == "ROLEQ" else np.array([0.0, 0.0, 1.0])
     href = np.array([2.0, 0.0, 1.0]) / math.sqrt(5) if cfg["f"] == "ROLEQ" else np.array([1.0, 0.0, 2.0]) / math.sqrt(5)
-    acc = np.tile(R.T @ gref * 9.81, (n, 1))
-    mag = np.tile(R.T @ href * 48.0, (n, 1))
-    gyr = rng.normal(size=(n, 3)) * 1e-3 + np.array([bias, -0.5 * bias, 0.25 * bias])
+    if rotating:
+        # a body turning at about 1 rad/s: q_k+1 = q_k (x) dq(w dt), the gyroscope reads the body rate w, the other sensors read the
+        # references in the body frame R(q_k)^T ref (physically consistent at every sample)
+        from ..sensorworld import M_float
+        dt = 0.01
+        w = np.array([0.6, -0.5, 0.62])
+        th = np.linalg.norm(w) * dt
+        dq = np.r_[math.cos(th / 2), math.sin(th / 2) * w / np.linalg.norm(w)]
+        q = core.g_unit(u)
+        acc, mag = np.zeros((n, 3)), np.zeros((n, 3))
+        for k in range(n):
+            Rk = M_float(q)
+            acc[k], mag[k] = Rk.T @ gref * 9.81, Rk.T @ href * 48.0
+            q = np.array([q[0] * dq[0] - q[1] * dq[1] - q[2] * dq[2] - q[3] * dq[3], q[0] * dq[1] + q[1] * dq[0] + q[2] * dq[3] - q[3] * dq[2],
+                          q[0] * dq[2] - q[1] * dq[3] + q[2] * dq[0] + q[3] * dq[1], q[0] * dq[3] + q[1] * dq[2] - q[2] * dq[1] + q[3] * dq[0]])
+            q /= np.linalg.norm(q)
+        gyr = np.tile(w, (n, 1)) + rng.normal(size=(n, 3)) * 1e-4
+    else:
+        acc = np.tile(R.T @ gref * 9.81, (n, 1))
+        mag = np.tile(R.T @ href * 48.0, (n, 1))
+        gyr = rng.normal(size=(n, 3)) * 1e-3 + np.array([bias, -0.5 * bias, 0.25 * bias])
     ga, aa, ma = gyr.copy(), acc.copy(), mag.copy()
     for i, fk in enumerate(pattern):
         # a dropout lasts the whole slot, or (thin) only its first sample: single-sample dropouts
@@ -84,18 +103,23 @@ def run_cfg(args):
     t.traces = []
     can_stream = cfg["f"] in ("Madgwick", "Mahony", "EKF", "UKF", "AQUA", "ROLEQ", "Fourati")
     for pi, pattern in enumerate(patterns):
-        forced_thin = None
+        forced_thin, long_ = None, False
         if isinstance(pattern, dict):
-            pattern, forced_thin = pattern["pattern"], pattern["thin"]
+            pattern, forced_thin, long_ = pattern["pattern"], pattern["thin"], pattern.get("long", False)
+        SLOT = 150 if long_ else globals()["SLOT"]      # long: slots of 1.5 s, a dropout of 4.5 s while the body keeps turning
+        if long_ and cfg["f"] in ("EKF", "UKF"):
+            # these two freeze the estimate for the whole dropout (the prediction is skipped with the correction) and then re-converge
+            # over thousands of samples, as from any large initial error (C05): outside the fixed recovery window of the monitor
+            continue
         u = TRUTHS[pi % len(TRUTHS)]
         stream = can_stream and pi % 2 == 1
         thin = (pi % 3 == 2) if forced_thin is None else forced_thin
-        clean, faulted = history(u, pattern, seed, cfg, thin=thin, bias=bias_)
+        clean, faulted = history(u, pattern, seed, cfg, thin=thin, bias=0.0 if long_ else bias_, slot=SLOT, rotating=long_)
         kinds = sorted(set(pattern) - {"ok"})
         visible = [fk for fk in kinds if any(us[w] and zeroes(fk, w) for w in ("acc", "mag", "gyr"))]
-        case = {"cfg": cname, "pattern": pattern, "truth": u, "single_sample_dropouts": thin}
+        case = {"cfg": cname, "pattern": pattern, "truth": u, "single_sample_dropouts": thin, "rotating_body_long_dropout": long_}
         t.calls += 2
-        t.keys.add((cname, tuple(pattern), thin))
+        t.keys.add((cname, tuple(pattern), thin, long_))
         try:
             ref = np.asarray(FL.batch(cfg, *clean, extra=extra)[1], dtype=float)
         except Exception as e:  # noqa
@@ -202,6 +226,10 @@ def run(chk):
             pat = [kind if i == at else "ok" for i in range(n_slots)]
             if pat in pats:
                 pats_used = pats_used + [{"pattern": pat, "thin": True}, {"pattern": pat, "thin": False}]
+    # a body that keeps turning through a dropout of 4.5 s (3 slots of 150 samples), of the kinds that blind the correction
+    for kind in ("accmag0", "acc0", "mag0"):
+        pat = ["ok"] * 3 + [kind] * 3 + ["ok"] * (n_slots - 6)
+        pats_used = pats_used + [{"pattern": pat, "thin": False, "long": True}]
     jobs = []
     for ti in range(len(UNDER_TEST)):
         step = 16 if quick else 260
